@@ -17,10 +17,11 @@ def messages (cfg : J) : List Str := messagesEnv ValidRules.rules (env cfg)
 /-- Does a `TypeError` escape from the key checks of the current code? -/
 def escapesNow (cfg : J) : Bool := escapes ValidRules.suggestStrWrap ValidRules.rules (env cfg)
 
-/-- Monitor: accepted ⇒ every active numeric rule's value is in its documented range. -/
+/-- Monitor: accepted ⇒ every active numeric rule's checked value AND the value its canonical leaf
+holds in the normalised config are in the documented range. -/
 def allRangeOk (cfg : J) : Bool :=
   let e := env cfg
-  (numRules ValidRules.rules).all (fun r => r.rangeOk e)
+  (numRules ValidRules.rules).all (fun r => r.rangeOk e && r.outRangeOk e)
 
 /-- Monitor: every fired numeric rule's value is outside its documented range. -/
 def allRejectOk (cfg : J) : Bool :=
